@@ -45,6 +45,11 @@ type file struct {
 	// allocLimit > 0: the scans of this file also report the MiB the Go heap handed out, and more
 	// than allocLimit is an oracle failure (zip bomb: memory must follow raw_size, not the stream)
 	allocLimit int64
+	// what observeDamage saw of such a file: (procs, MiB) per scan, the frame description and the
+	// index of the damaged frame, for the ALLOC case judged in Coq
+	allocs  [][2]int64
+	lastFds []pbfrun.FrameDesc
+	lastDmg int
 }
 
 type emptyAt struct {
@@ -527,6 +532,57 @@ func damageCase(w *wire.Writer, r *pbfrun.Runner, base *file, dm *dmg, pos int, 
 	return observeDamage(w, r, f, dm.name, pos, dm.inBlock, 2)
 }
 
+// sessionCase: one scanner on data[:k] of a valid file driven by a call script (Scan, Err, Header
+// in any order, going on well after Scan has returned false); case kind 7, judged in Coq against
+// the scanner.go model of C06/Session.v ("... then stops").
+func sessionCase(w *wire.Writer, r *pbfrun.Runner, f *file, k int, rng *rand.Rand) (*wire.Case, error) {
+	fds := pbfrun.Describe(f.desc, f.data, f.frames, [3]bool{}, nil)
+	n := 0
+	for i := range fds {
+		n += len(fds[i].Objs)
+	}
+	var calls []int
+	if rng.Intn(3) == 0 {
+		calls = append(calls, 2)
+	}
+	for i := 0; i <= n; i++ {
+		calls = append(calls, 0)
+		if rng.Intn(6) == 0 {
+			calls = append(calls, 1+rng.Intn(2))
+		}
+	}
+	for i := 0; i < 6; i++ { // after the end: anything
+		calls = append(calls, rng.Intn(3))
+	}
+	calls = append(calls, 0, 1, 2, 0, 1)
+	procs := procsList[rng.Intn(len(procsList))]
+	obs, err := r.Run(pbfrun.Job{Data: f.data, Procs: procs, Mode: "session", Units: []int{k}, Calls: calls})
+	if err != nil {
+		return nil, err
+	}
+	o := &obs[0]
+	c := &wire.Case{Class: "session"}
+	c.Int(7)
+	pbfrun.EmitFrames(c, fds)
+	c.Int(int64(k))
+	c.Len(len(calls))
+	for _, x := range calls {
+		c.Int(int64(x))
+	}
+	if o.Crash || o.Hang || o.Skipped || len(o.Resp) != len(calls) {
+		c.OracleFail = fmt.Sprintf("session on a file cut at %d: crash, hang or missing responses: %s", k, o.CrashMsg)
+		o.Resp, o.RespTok = nil, nil
+	}
+	c.Len(len(o.Resp))
+	for i := range o.Resp {
+		c.Int(o.Resp[i])
+		c.Tok(o.RespTok[i])
+	}
+	c.Desc = map[string]interface{}{"kind": "call script on a cut file", "file_seed": f.seed, "size": len(f.data), "cut": k, "procs": procs,
+		"calls (0 Scan 1 Err 2 Header)": calls, "responses": o.Resp}
+	return c, nil
+}
+
 // skipKind: the element kind (0 nodes, 1 ways, 2 relations) an in-block damage class lives in, or
 // -1 when skipping one kind does not hide the damage (framing damage, a removed string table, a
 // plain Node group: rejected before the skip flags are looked at)
@@ -686,6 +742,8 @@ func observeDamage(w *wire.Writer, r *pbfrun.Runner, f *file, name string, pos i
 		o := &obs[0]
 		oc := outcome(o)
 		if f.allocLimit > 0 {
+			f.allocs = append(f.allocs, [2]int64{int64(p), o.AllocMiB})
+			f.lastFds, f.lastDmg = fds, di
 			w.Count(fmt.Sprintf("%s:alloc_mib<=%d", name, (o.AllocMiB/32+1)*32))
 			if c.OracleFail == "" && o.AllocMiB > f.allocLimit {
 				c.OracleFail = fmt.Sprintf("damage %s at block %d, procs %d: the scan allocated %d MiB for a file of %d bytes whose blobs announce raw sizes below 1 MiB (limit %d MiB): memory follows what the zlib stream inflates to, not raw_size",
@@ -999,6 +1057,21 @@ func main() {
 			fail(err)
 		}
 		w.Add(c)
+		// call scripts (Scan / Err / Header in any order, continued after the end) at some cuts
+		cuts := []int{0, 4, len(f.data)}
+		for j := 0; j < 5; j++ {
+			cuts = append(cuts, rng.Intn(len(f.data)+1))
+		}
+		for _, k := range cuts {
+			if k > len(f.data) {
+				continue
+			}
+			c, err := sessionCase(w, r, f, k, rng)
+			if err != nil {
+				fail(err)
+			}
+			w.Add(c)
+		}
 	}
 
 	dms := damages()
@@ -1107,6 +1180,22 @@ func main() {
 							fail(err)
 						}
 						w.Add(c)
+						if len(f.allocs) > 0 {
+							// 6 ALLOC: frames damaged_frame | (procs MiB)*  -- the Go heap handed out
+							// during each scan, judged in Coq against the model's inflated_bytes
+							ca := &wire.Case{Class: "alloc:" + cl.name + ":" + build}
+							ca.Int(6)
+							pbfrun.EmitFrames(ca, f.lastFds)
+							ca.Int(int64(f.lastDmg))
+							ca.Len(len(f.allocs))
+							for _, a := range f.allocs {
+								ca.Int(a[0])
+								ca.Int(a[1])
+							}
+							ca.Desc = map[string]interface{}{"kind": "heap allocated while scanning a zip-bomb blob", "class": cl.name, "build": build,
+								"block": pos, "file_seed": f.seed, "size": len(f.data), "procs_mib": f.allocs}
+							w.Add(ca)
+						}
 					}
 				}
 			}
